@@ -174,6 +174,7 @@ func checkMerge(e *Env, m *e1Model) {
 	g := flow.G(ts)
 	// terminal instructions per block
 	term := map[*ssa.BasicBlock]int{}
+	probTerm := map[*ssa.BasicBlock]int{}
 	kinds := map[string]int{}
 	for _, b := range ts.Blocks {
 		if !g.Live(b) || !g.Dominates(body, b) {
@@ -190,6 +191,7 @@ func checkMerge(e *Env, m *e1Model) {
 				switch {
 				case st != nil && types.Identical(st.Elem(), types.Typ[types.String]):
 					term[b]++
+					probTerm[b]++
 					kinds["problem"]++
 				case st != nil && isNamed(st.Elem(), load.PkgRoot, "SyscallWithConditions"):
 					term[b]++
@@ -248,6 +250,33 @@ func checkMerge(e *Env, m *e1Model) {
 			}
 		}
 	}
+	// an inner loop that records one problem per element of a list (`for _, m := range msgs { problems = append(problems,
+	// wrap(m)) }`) is one outcome of kind "problem": exactly one when the list is known to be non-empty there, else 0..1
+	type innerLoop struct {
+		l          *flow.CountedLoop
+		guaranteed bool
+	}
+	inner := map[*ssa.BasicBlock]innerLoop{}
+	for _, l := range flow.CountedLoops(ts) {
+		if l.Header == header || !g.Dominates(body, l.Header) || !l.Unconditional() {
+			continue
+		}
+		nProb, nOther := 0, 0
+		for _, b := range l.BodyBlocks() {
+			nProb += probTerm[b]
+			nOther += term[b] - probTerm[b]
+		}
+		if nProb != 1 || nOther != 0 {
+			continue
+		}
+		guaranteed := false
+		for _, cd := range flow.DomConds(l.Header) {
+			if arg, pr, ok := flow.LenPred(cd.V, cd.Pol); ok && arg == l.Over && pr.NonZero() {
+				guaranteed = true
+			}
+		}
+		inner[l.Header] = innerLoop{l, guaranteed}
+	}
 	// min / max terminals on every path through the body back to the header
 	type mm struct{ min, max int }
 	memo := map[*ssa.BasicBlock]mm{}
@@ -257,6 +286,15 @@ func checkMerge(e *Env, m *e1Model) {
 			return mm{0, 0}
 		}
 		if v, ok := memo[b]; ok {
+			return v
+		}
+		if il, ok := inner[b]; ok && il.l.Exit != nil {
+			v := walk(il.l.Exit, depth+1)
+			v.max++
+			if il.guaranteed {
+				v.min++
+			}
+			memo[b] = v
 			return v
 		}
 		if depth > 200 {
